@@ -290,6 +290,14 @@ def scenario(cfg, W):
         k12 = same_key(E1, E2)
         unchanged = z3.And(k12, W.same(orig["E1"], orig["E2"]))
         holds.append(z3.BoolVal(bool(cache.dirty)) == z3.Not(unchanged))
+        if len(cfg) > 3 and cfg[3] == "reuse_e1_inputs_edited":
+            # the caller edits the frames it stored E1 with IN PLACE (same objects, same shape and columns) and looks up with those very objects:
+            # the key must follow the contents, not the identity of the frame objects
+            kept = {t: W.snapshot(f) for t, f in E1["dm"].items()}
+            for t, f in E1["dm"].items():
+                W.mutate(f, f"E1.{t}.edit")
+            L = dict(L, dm=E1["dm"], spec=E1["spec"])
+            E1 = dict(E1, dm=kept)
         # caller goes on to change its own result objects and input frames: must not reach the cache
         W.mutate(E1["res"], "E1.res")
         W.mutate(E2["res"], "E2.res")
@@ -343,7 +351,7 @@ class H(Harness):
                 asg[d.name()] = v.as_long()
             elif z3.is_string_value(v):
                 asg[d.name()] = v.as_string()
-        return {"cfg": [list(map(list, e)) for e in self.cfg], "assignment": asg, "symbolic_run": info}
+        return {"cfg": [e if isinstance(e, str) else list(map(list, e)) for e in self.cfg], "assignment": asg, "symbolic_run": info}
 
 
 def make(cfg, twin=False):
@@ -351,7 +359,7 @@ def make(cfg, twin=False):
 
 
 def replay_input(inp):
-    cfg = tuple(tuple((t, l) for t, l in e) for e in inp["cfg"])
+    cfg = tuple(e if isinstance(e, str) else tuple((t, l) for t, l in e) for e in inp["cfg"])
     try:
         holds, info, _ = scenario(cfg, RealWorld(inp["assignment"]))
     except Exception as e:
@@ -385,6 +393,9 @@ def configs(tier):
         out += [(a, b, c) for a, b, c in itertools.product(grp, repeat=3)]
     for l in (("t1", "t2") if tier == "quick" else ("t1", "t2", "tb1")):
         out.append(((("t", l),), (("t", l),), (("t", l),)))
+    for l in ("a1", "a2", "ab1"):
+        out.append(((("t", l),), (("t", l),), (("t", l),), "reuse_e1_inputs_edited"))
+    out.append(((("t", "a1"), ("u", "a1")), (("t", "a1"), ("u", "a1")), (("t", "a1"), ("u", "a1")), "reuse_e1_inputs_edited"))
     two = [(("t", "a1"), ("u", "a1")), (("u", "a1"), ("t", "a1")), (("t", "a1"),), (("u", "a1"),), (("t", "ab1"), ("u", "ba1"))]
     out += [(a, b, c) for a, b, c in itertools.product(two, repeat=3)] if tier == "thorough" else \
            [(a, a, c) for a, c in itertools.product(two, repeat=2)] + [(a, c, c) for a, c in itertools.product(two, repeat=2)]
